@@ -87,7 +87,9 @@ package db
 //@ pred ctxHasLang(ctx) = typeis[lang.Language](ctxval(ctx, "Language"))
 //@ ghost ctxLangCode(ctx) = as[lang.Language](ctxval(ctx, "Language")).Code
 // the session part of a storage key for the current data type
-//@ ghost skeyT(bd, t) = ite(sessioned(bd.baseDb.pfx), str(bd.baseDb.sid), "") + t
+// (skeyP is the pure form the isolation lemmas of C11 are stated over)
+//@ ghost skeyP(pfx, sidtext, t) = ite(sessioned(pfx), sidtext, "") + t
+//@ ghost skeyT(bd, t) = skeyP(bd.baseDb.pfx, str(bd.baseDb.sid), t)
 //@ ghost skey(bd, key) = skeyT(bd, str(key))
 // the language suffix of a translated lookup: the store's language, else the context's (C18)
 //@ pred hasTrans(bd, ctx) = translatable(bd.baseDb.pfx) && (bd.baseDb.lang != nil || ctxHasLang(ctx))
@@ -121,3 +123,20 @@ package db
 //@ func IsNotFound
 //@   assumed
 //@   ensures typeis[ErrNotFound](err) ==> result
+
+// ---- isolation lemmas (C11), over the same key functions the contracts above bind the code to ----
+// storage key of (type, session id, key): the session prefix is the id followed by a dot (SetSession)
+//@ ghost storageKey(pfx, id, key) = chr(int(pfx)) + skeyP(pfx, ite(id == "", "", id + "."), key)
+
+// Different data types never share a storage key.
+//@ func lemmaTypesIsolated
+//@   serves C11
+//@   nativestrings
+//@   ensures @types storageKey(pa, ida, ka) == storageKey(pb, idb, kb) ==> pa == pb
+
+// Within a session-scoped data type, different (session, key) pairs never share a storage key.
+//@ func lemmaSessionsIsolated
+//@   serves C11
+//@   nativestrings
+//@   requires sessioned(pfx)
+//@   ensures @sessions storageKey(pfx, ida, ka) == storageKey(pfx, idb, kb) ==> ida == idb && ka == kb
